@@ -42,6 +42,20 @@ Definition sv_two := SEx (2 # 1, 0).
 
 Definition sx := expr sv.
 
+(** Evaluation over the same carrier (total operations, as [Expression::evaluate]). *)
+Definition sv_alg : alg sv sv Q := {|
+  of_lit := fun c => c;
+  of_mem := fun m => SEx (Qred m, 0);
+  c_pi := SPi;
+  c_neg := sv_neg;
+  c_fn := sv_fun;
+  c_infix := fun o x y => Some (sv_op o x y);
+|}.
+
+(** [k] times [0 + _] around [e] *)
+Fixpoint zero_plus (k : nat) (e : expr sv) : expr sv :=
+  match k with O => e | S k' => Infix (Num sv_zero) Plus (zero_plus k' e) end.
+
 Definition x_run_st : sx -> sx * st sv :=
   run_st sv sv_zero sv_one sv_two SPi SUnk sv_neg sv_fun sv_op sv_is_zero sv_is_one sv_eqb.
 Definition x_run (e : sx) : sx := fst (x_run_st e).
